@@ -45,6 +45,7 @@ def main():
     import stat, struct, threading, traceback, types, warnings, argparse, builtins  # noqa
     from sim import wire, seeds, child  # noqa
     from sim import apisim, cliworld, climodel, world  # noqa
+    cliworld.preload_main()
 
     personality_aslr_off = False
     try:
